@@ -5,7 +5,7 @@
    - the Coq kernel (coqc 8.16.1) and, for the soundness theorems in
      CertSound.v / QuerySound.v, MathComp 1.15 + mathcomp.zify (ssrZ: the
      Z -> int ring morphism) + algebra-tactics; no axioms are expected in
-     `Print Assumptions` (Props/Properties_ORACLE.v prints them);
+     `Print Assumptions` (Props/Properties_ORACLE.v prints them: all 17 closed);
    - Coq's extraction to OCaml with ExtrOcamlBasic + ExtrOcamlNativeString only
      (Z, positive, nat stay the extracted inductive types), the OCaml compiler;
    - ocaml/cert_driver.ml: parsing of the line protocol, conversion of decimal /
@@ -24,6 +24,10 @@
        the disc belongs to), hence the zs_i are all the roots of P,
      - the zs_i are pairwise distinct (the tiny discs are pairwise disjoint), so
        the multiplicity of zs_i in P is exactly m_i.
+   Each tiny disc is validated by the Newton test  n |q(x)| <= r |q'(x)|  at its centre x,
+   either in exact Gaussian-integer arithmetic (newton_ok) or, when the factor carries a
+   precision hint K > 0, in truncated ball arithmetic with scale 2^K (newton_ok_trunc,
+   sound for every K: Trunc.v); a bad K can only make the check fail.
    The queries (count_bounds, cover, side_re, side_im, side_unit) are comparisons of integers between
    tiny discs and query discs; QuerySound.v turns them into statements about the
    number of roots of P (counted with multiplicity) in a closed query disc. *)
@@ -43,8 +47,10 @@ Record disc := Disc { dc : G; dr : Z; ds : Z }.
 (* query disc given by rationals: centre q_c, radius q_rn/q_rd *)
 Record rdisc := RDisc { q_c : rcoef; q_rn : Z; q_rd : Z }.
 
-(* square-free factor f_q of multiplicity f_m with one tiny disc per root *)
-Record factor := Factor { f_m : nat; f_q : poly; f_discs : list disc }.
+(* square-free factor f_q of multiplicity f_m with one tiny disc per root;
+   f_prec = K > 0 selects the truncated Newton test with 2^K fixed-point scaling,
+   K <= 0 the exact one (both are proved sound; K is an untrusted hint) *)
+Record factor := Factor { f_m : nat; f_prec : Z; f_q : poly; f_discs : list disc }.
 
 (* certificate: c_scale * P = c_pint  (coefficientwise, over Q(i)),
                 c_g * c_pint = c_a * prod_k (f_q k)^(f_m k)  (over Z[i]) *)
@@ -123,13 +129,44 @@ Definition newton_ok (q : poly) (t : disc) : bool :=
   let n := Z.of_nat (pred (length q)) in
   (0 <? gnorm2 d) && (zsq (n * ds t) * gnorm2 v <=? zsq (dr t) * gnorm2 d).
 
+(* ---- the same test with truncated (ball) arithmetic: cost independent of the degree ---- *)
+
+(* floor division by s > 0; a shift when s is a power of two *)
+Definition divs (a s : Z) : Z :=
+  let k := Z.log2 s in
+  if s =? Z.shiftl 1 k then Z.shiftr a k else a / s.
+Definition gdivs (x : G) (s : Z) : G := (divs (fst x) s, divs (snd x) s).
+
+(* Ball evaluation at x = w/s with fixed-point scale M:  ((v, e), (d, ed)) with
+   |M p(x) - v| <= e  and  |M p'(x) - d| <= ed,  where W >= |w|. *)
+Fixpoint peval2_trunc (M : Z) (p : poly) (w : G) (s W : Z) : (G * Z) * (G * Z) :=
+  match p with
+  | [] => ((gzero, 0), (gzero, 0))
+  | c :: q =>
+      let '((v, e), (d, ed)) := peval2_trunc M q w s W in
+      ((gadd (gdivs (gmul v w) s) (gscale M c), divs (e * W) s + 3),
+       (gadd (gdivs (gmul d w) s) v, divs (ed * W) s + 3 + e))
+  end.
+
+Definition newton_ok_trunc (K : Z) (q : poly) (t : disc) : bool :=
+  let M := 2 ^ K in
+  let W := Z.sqrt (gnorm2 (dc t)) + 1 in
+  let '((v, e), (d, ed)) := peval2_trunc M q (dc t) (ds t) W in
+  let n := Z.of_nat (pred (length q)) in
+  let nv := Z.sqrt (gnorm2 v) + 1 + e in      (* >= M |q(x)|  *)
+  let nd := Z.sqrt (gnorm2 d) - ed in         (* <= M |q'(x)| *)
+  (0 <? nd) && (n * ds t * nv <=? dr t * nd).
+
+Definition newton_test (K : Z) (q : poly) (t : disc) : bool :=
+  if 0 <? K then newton_ok_trunc K q t else newton_ok q t.
+
 Definition factor_shape_ok (f : factor) : bool :=
   negb (Nat.eqb (f_m f) 0) && negb (gis0 (plead (f_q f))) &&
   Nat.eqb (length (f_discs f)) (pred (length (f_q f))) &&
   forallb disc_wf (f_discs f).
 
 Definition factor_ok (f : factor) : bool :=
-  factor_shape_ok f && forallb (newton_ok (f_q f)) (f_discs f).
+  factor_shape_ok f && forallb (newton_test (f_prec f) (f_q f)) (f_discs f).
 
 Definition all_discs (ct : cert) : list disc := flat_map f_discs (c_factors ct).
 
@@ -172,6 +209,12 @@ Definition rinside (t : disc) (q : rdisc) : bool :=
 (* for each tiny disc, the (0-based) indices of the query discs that contain it *)
 Definition cover (ct : cert) (qs : list rdisc) : list (list nat) :=
   map (fun mt => indices_from (rinside (snd mt)) O qs) (tiny_list ct).
+
+(* tiny discs that are disjoint from every query disc: their root is certainly uncovered *)
+Definition rdisjoint (t : disc) (q : rdisc) : bool :=
+  match mkdisc q with Some d => disc_disjoint t d | None => false end.
+Definition uncovered (ct : cert) (qs : list rdisc) : list bool :=
+  map (fun mt => forallb (rdisjoint (snd mt)) qs) (tiny_list ct).
 
 Definition all_covered (ct : cert) (qs : list rdisc) : bool :=
   forallb (fun l => match l with [] => false | _ => true end) (cover ct qs).
